@@ -46,7 +46,7 @@ def _property(obj: Any, key: object) -> Any:
     """
     try:
         return obj[key]
-    except KeyError:
+    except (KeyError, IndexError):
         return None
 
 
